@@ -326,6 +326,34 @@ def acceptance_block(ctx, rng):
                 ctx.count("acceptance:other-exception")
 
 
+def unsolvable_block(ctx, rng):
+    """through __call__ on stage equations that have NO solution however often the step is shortened (y' = 1 + y^2 at |y| ~ 1e8:
+    solvable only for |h| < 1/(4|y|), out of reach of 64 shortenings by 0.8): the step must be refused, never handed back"""
+    for cls in I.implicit_methods():
+        for rep in range(1 if ctx.quick() else 4):
+            log = []
+
+            class Rec(cls):
+                def step(self, rhs, t, y, c, h, log=log):
+                    r = super().step(rhs, t, y, c, h)
+                    log.append((float(h), bool(self.solver_dict["newton_iteration_success"])))
+                    return r
+            y0 = np.array([rng.choice([1.0, -1.0]) * 10.0 ** rng.uniform(7.5, 9)])
+            h = np.float64(rng.choice([1.0, 0.5]) * np.sign(y0[0]))        # toward the blow-up
+            integ = Rec((1,), dtype=np.float64)
+            inp = dict(kind="unsolvable-stage-equations", method=cls.__name__, y=y0.tolist(), h=float(h))
+            try:
+                dt, (dT, dY) = integ(DS.DiffRHS(lambda t, y: 1.0 + y ** 2), np.float64(0.0), y0.copy(), {}, h)
+                ok = len(log) > 0 and log[-1][1] is True and bool(np.all(np.isfinite(dY)))
+                ctx.oracle("only-converged-steps-accepted", ok, dict(inp, attempts=len(log), last=log[-2:], dT=float(dT)),
+                           what="__call__ handed back a step (dTime %r) whose stage solve had not converged, after %d attempts" % (float(dT), len(log)))
+                ctx.count("unsolvable:returned")
+            except de.exception_types.FailedToMeetTolerances:
+                ctx.count("unsolvable:refused")
+            except Exception as e:
+                ctx.count("unsolvable:other-exception:" + type(e).__name__)
+
+
 def split_block(ctx, rng):
     lines, cases = [], []
     for cls in [I.SymplecticEulerSolver, I.BABs9o7HSolver, I.ABAs5o6HSolver]:
@@ -370,6 +398,7 @@ def run(ctx):
     implicit_block(ctx, ctx.rng)
     shape_block(ctx, ctx.rng)
     acceptance_block(ctx, ctx.rng)
+    unsolvable_block(ctx, ctx.rng)
     split_block(ctx, ctx.rng)
 
 
